@@ -228,11 +228,25 @@ StepFeat ==
     \cup (IF f.f \in LoopFrames /\ c.c \in {"break", "continue"} /\ LoopInTryInLoop(Tail(k)) THEN {"brk_loop_in_try_in_loop"} ELSE {})
     \cup (IF f.f \in LoopFrames /\ c.c \in {"break", "continue"} /\ (\E i \in 1..Len(FnFrames(Tail(k))) : FnFrames(Tail(k))[i].f = "catch")
            THEN {"brk_in_catch_body"} ELSE {})
+    \* suspension points (the VM state is saved and restored around every order)
+    \cup (IF f.f = "order" /\ c.c = "normal" THEN
+             (IF \E i \in 1..Len(k) : k[i].f = "fin" /\ k[i].pend.c # "normal" THEN {"suspend_pending_completion"} ELSE {})
+             \cup (IF \E i \in 1..Len(k) : k[i].f = "catch" THEN {"suspend_in_catch"} ELSE {})
+             \cup (IF \E i \in 1..Len(k) : k[i].f = "fin" THEN {"suspend_in_finally"} ELSE {})
+             \cup (IF \E i \in 1..Len(k) : k[i].f \in {"forofB", "forofN"} THEN {"suspend_in_forof"} ELSE {})
+             \cup (IF \E i \in 1..Len(k) : k[i].f = "callret" THEN {"suspend_in_call"} ELSE {})
+             \cup (LET e == FindEnv(heap, env, "this") IN
+                   IF e # NoEnv /\ heap[e].vars[VarIdx(heap, e, "this")].v.t # "undef" THEN {"suspend_with_this"} ELSE {})
+             \cup (LET nth == Cardinality({ i \in 1..Len(out) : out[i].e = "order" }) + 1  rs == Progs[pi].resp IN
+                   IF nth <= Len(rs) /\ rs[nth].k = "err" /\ (\E i \in 1..Len(k) : k[i].f = "callret") THEN {"suspend_err_in_call"} ELSE {})
+          ELSE {})
     \cup (IF f.f = "mcallA" /\ c.c = "normal" /\ c.v.t \in {"str", "num", "nan", "inf", "nzero", "bool"} THEN {"prim_method"} ELSE {})
     \cup (IF f.f \in {"wbody", "forofB"} /\ c.c \in {"break", "continue"} /\ c.l # "" THEN {"labelled_loop_exit"} ELSE {})
   ELSE IF ctl.m = "ev" THEN
     LET d == Nd(ctl.n) IN
     (IF d.ty = "try" /\ \E i \in 1..Len(k) : k[i].f = "fin" /\ k[i].pend.c # "normal" THEN {"fin_nested_try"} ELSE {})
+    \cup (IF d.ty = "this" /\ FindEnv(heap, env, "this") = NoEnv THEN {"toplevel_this"} ELSE {})
+    \cup (IF d.ty = "this" /\ (\E i \in 1..Len(out) : out[i].e = "order") THEN {"this_after_suspend"} ELSE {})
     \cup
     (IF d.ty = "update" /\ FindEnv(heap, env, d.name) # NoEnv THEN
         LET b == heap[FindEnv(heap, env, d.name)].vars[VarIdx(heap, FindEnv(heap, env, d.name), d.name)] IN
